@@ -51,7 +51,9 @@ def rsym_render(m, scripts, option_sets, all_orders=False):
     results = list(m.explore(drv, max_paths=5000))
     if all_orders:
         return [v if st == 'ok' else {'error': '%s: %s' % (st, v)} for tr, pc, st, v in results]
-    if len(results) != 1: return {'error': 'concrete run forked into %d paths' % len(results)}
+    if len(results) != 1:
+        # unspecified behaviour in the code under test (ties of an unstable sort, map order): the native result must be ONE of the modelled outcomes
+        return {'alternatives': [v if st == 'ok' else {'error': '%s: %s' % (st, v)} for tr, pc, st, v in results]}
     tr, pc, st, v = results[0]
     if st != 'ok': return {'error': '%s: %s' % (st, v)}
     return v
@@ -62,6 +64,9 @@ def canon_order(t):
     return dict(t, children=sorted(([tag, canon_order(c)] for tag, c in t['children']), key=lambda x: x[1]['name']))
 def compare(native, mine):
     if 'panic' in native or 'crash' in native: return 'native panicked: %r' % (native,)
+    if 'alternatives' in mine:
+        ds = [compare(native, a) for a in mine['alternatives']]
+        return None if any(d is None for d in ds) else 'native result is none of the %d modelled outcomes; first: %s' % (len(ds), ds[0])
     if 'error' in mine: return mine['error']
     ns, ms = native['steps'], mine['steps']
     if len(ns) != len(ms): return 'number of steps differs: %r vs %r' % (ns, ms)
@@ -69,7 +74,7 @@ def compare(native, mine):
         if a['ok'] != b['ok']: return 'verdict differs: native %r vs rsym %r' % (a, b)
         if not a['ok']:
             if a['kind'] != b['kind']: return 'error kind differs: %r vs %r' % (a, b)
-            if a['kind'] == 'QuickXmlError' and (a['pos'] != b.get('pos') or a['inner'] != b.get('inner')): return 'QuickXmlError payload differs: %r vs %r' % (a, b)
+            if a['kind'] == 'QuickXmlError' and (a['pos'] != b.get('pos') or (a['inner'] != b.get('inner') and not str(b.get('inner')).startswith('~'))): return 'QuickXmlError payload differs: %r vs %r' % (a, b)
             if a['kind'] in ('AttrError', 'ParsingError') and a['inner'] != b.get('inner'): return 'error payload differs: %r vs %r' % (a, b)
     nt = [canon_order(tree_from_debug(t)) for t in native['trees']]
     mt = [canon_order(t) for t in mine['trees']]
@@ -144,7 +149,7 @@ def run_gate(ast, replay, test_strings, seed=0, n_random=120, hash_order='insert
         # native stops at the first error; give rsym the same number of documents it got to
         mine = rsym_render(m, scripts, OPTION_SETS)
         diff = compare(native, mine)
-        if diff is not None and 'error' not in mine and diff.startswith('rendered output differs'):
+        if diff is not None and 'error' not in mine and 'alternatives' not in mine and diff.startswith('rendered output differs'):
             # F2-style dependence of the *native* output on HashMap iteration order is C05's subject, not an encoder fault:
             # if repeated native runs (fresh hash seeds per HashMap instance) disagree among themselves, the document is skipped here
             outs = set()
@@ -177,6 +182,7 @@ def mutated_corpus(seed, n):
         out.append({'hex': bytes(b).hex()})
     for d in range(0, 201, 50):
         out.append({'hex': (b'<a>' * d + b'</a>' * d).hex()})
+    out.append({'hex': (b'<a></b>' * 60000).hex()})          # nesting depth 1 for a reader that does not check end names
     return out
 
 def expected_from_events(evs, initial=True):
